@@ -532,6 +532,12 @@ func (s *Server) pushReq(ctx context.Context, wantID bool, method string, params
 		P:  bits,
 	}})
 	bytesWrittenCount.Add(int64(nw))
+	if err != nil && rsp != nil {
+		// The request was not sent, so no reply will arrive. Do not leave the
+		// pending call, and the goroutine watching its context, behind.
+		delete(s.call, rsp.id)
+		rsp.cancel()
+	}
 	return rsp, err
 }
 
